@@ -233,24 +233,27 @@ Definition resolve_operation (u : uinfo) (rg : regs) (m : mem) (o : uop) : opres
     end
   | UMachFrame err =>
     let off := if err then 8 else 0 in
-    if sp rg + off + 24 <? W64 then
+    (* read_stack(rsp + offset)? ; read_stack(rsp + offset + 24)? - in this order *)
+    if sp rg + off <? W64 then
       match m (sp rg + off) with
       | None => OpNoStack rg
       | Some ra =>
-        match m (sp rg + off + 24) with
-        | None => OpNoStack rg
-        | Some nsp => OpBreak ra (set_sp rg nsp)
-        end
+        if sp rg + off + 24 <? W64 then
+          match m (sp rg + off + 24) with
+          | None => OpNoStack rg
+          | Some nsp => OpBreak ra (set_sp rg nsp)
+          end
+        else OpPanic
       end
     else OpPanic
   end.
 
 (* ---------- x86_64/pe.rs: PeUnwinding::unwind_frame ---------- *)
-(* the chained infos, collected with core::iter::successors: [fuel] bounds the walk; a cycle
-   exhausts it = the real code never returns (and allocates without bound) *)
+(* the chained infos, walked with core::iter::successors: at most [fuel] = CHAIN_LIMIT infos *)
+Definition CHAIN_LIMIT : nat := 32.
 Fixpoint chain_infos (fuel : nat) (pe : pe_data) (u : uinfo) : res (option (list uinfo)) :=
   match fuel with
-  | O => Hang
+  | O => Ok None                      (* more than CHAINED_INFO_LIMIT infos: UnwindInfoParseError (fix for S11: was a hang) *)
   | S f =>
     match ui_chain u with
     | None => Ok (Some [u])
@@ -340,18 +343,18 @@ Definition pe_step (checked : bool) (pe : pe_data) (address : N) (first : bool) 
     | UiOk u0 =>
       let epi :=
         if first then
-          if rt_end f <? address then Some (CbPanic S_pe_own_sub, pe_eff)
+          if rt_end f <? address then Some (CbErr rg, pe_eff)         (* checked_sub: fix for S11 *)
           else
             match pe_text pe with
             | None => Some (CbErr rg, pe_eff)                         (* MissingInstructionData *)
             | Some (lo, hi, bytes) =>
               if (lo <=? address) && (address <? hi) then
                 let off := N.to_nat (address - lo) in
-                if Nat.ltb (length bytes) off then Some (CbPanic S_pe_own_slice, pe_eff)
+                if Nat.ltb (length bytes) off then Some (CbErr rg, pe_eff)     (* data.get(offset..): fix for S11 *)
                 else
                   let rest := skipn off bytes in
                   let n := N.to_nat (rt_end f - address) in
-                  if Nat.ltb (length rest) n then Some (CbPanic S_pe_own_slice, pe_eff)
+                  if Nat.ltb (length rest) n then Some (CbErr rg, pe_eff)      (* .get(..bytes): fix for S11 *)
                   else
                     match eparse_sequence (firstn n rest) (ui_fpreg u0) with
                     | None => None
@@ -375,7 +378,7 @@ Definition pe_step (checked : bool) (pe : pe_data) (address : N) (first : bool) 
       match epi with
       | Some r => r
       | None =>
-        match chain_infos (S (length (pe_uinfos pe))) pe u0 with
+        match chain_infos CHAIN_LIMIT pe u0 with
         | Hang => (CbHang, pe_eff_alloc)
         | Ok None => (CbErr rg, pe_eff_alloc)
         | Ok (Some infos) =>
@@ -498,7 +501,7 @@ Definition ms_unwind (pe : pe_data) (address : N) (rg : regs) (m : mem) : option
         | _ => None
         end
       | None =>
-        match ms_chain (S (length (pe_uinfos pe))) (ms_frame_base u0 (address - rt_begin f) rg) pe u0 false (address - rt_begin f) rg m with
+        match ms_chain CHAIN_LIMIT (ms_frame_base u0 (address - rt_begin f) rg) pe u0 false (address - rt_begin f) rg m with
         | Some (inl rg') => ms_final rg' m
         | Some (inr r) => Some r
         | None => None
